@@ -44,7 +44,7 @@ RULE = ("generated Markdown documents (headings, prose of 0-60 lines, lists, quo
         "indented with spaces/tabs or fenced with ```/~~~ of several lengths and indents, recipe/new-recipe, in top level / "
         "quote / bullet and ordered list / on the marker line / quote in list / list in quote / nested list; tab-separated prose and NFD (combining-mark) names before the fault; re-wrapped sibling documents (same listing at the same offset on another line) compiled in the same process; files starting with 1-3 empty lines and / or a byte-order mark; blank lines "
         "and multi-line statements inside blocks; missing final newline / closing fence) with ONE injected fault "
-        "(redefinition, proportion of unknown name, stray token, unclosed parenthesis) at a statement position of a "
+        "(redefinition, proportion of unknown name, stray token, unclosed parenthesis, a block repeated verbatim after a block that defines a name); listing lines starting with '#' at a statement position of a "
         "block, written with LF, CRLF and mixed line ends; a case is non-trivial when the fault is not on line 1; "
         "distinct = distinct (text, fault)")
 
@@ -82,7 +82,7 @@ def impl(text: str) -> Optional[Tuple[str, int, int, str]]:
 
 
 EXPECTED_ERROR = {"redef": "NameRedefinedError", "prop": "ProportionGivenForIngredientError", "stray": "ParseError",
-                  "eof": "ParseError"}
+                  "eof": "ParseError", "repeat": "NameRedefinedError"}
 
 
 def oracle(text: str, f: Dict[str, Any], res: Optional[Tuple[str, int, int, str]]) -> Optional[str]:
@@ -228,6 +228,10 @@ def doc_cases(rng: random.Random, n_docs: int, faults_per_doc: int, exhaustive: 
                      [(bi, 0, "eof") for bi in range(len(doc.blocks()))]
         else:
             chosen = [rng.choice(allpos) + (rng.choice(kinds[:3] * 3 + ["eof"]),) for _ in range(faults_per_doc)]
+        nb = len(doc.blocks())
+        if nb >= 2:
+            # a later block that repeats the previous block verbatim (fault in the repeat)
+            chosen += [(bi, 0, "repeat") for bi in (range(1, nb) if exhaustive else [rng.randrange(1, nb)])]
         for bi, p, kind in chosen:
             d = mddocs.inject(doc, rng, kind, bi, p)
             if d is None:
@@ -252,6 +256,8 @@ def doc_cases(rng: random.Random, n_docs: int, faults_per_doc: int, exhaustive: 
                 if not d.final_newline:
                     tags.append("no-final-newline")
                 tags.append("file-start:" + d.lead)
+                if any(l.lstrip().startswith("#") for st in b.stmts[: d.fault["stmt"]] for l in st):
+                    tags.append("hash-line-before-fault")
                 if b.stmts and any("\u0303" in l or "\u0300" in l or "\u0301" in l
                                    for st in b.stmts[: d.fault["stmt"]] for l in st):
                     tags.append("nfd-before-fault")
